@@ -7,7 +7,10 @@ witnesses), `cap_adequate_int` + `nonScc_once` + `within_of_int` (families with 
 `scale_law_counterexample` (the cap is not scale invariant: the self-loop instance is satisfiable with flows 1 and
 unsatisfiable for every k with flows 1/2),
 `mfdc_search_minimal` / `mfdc_search_finds` / `mfdc_minimum_int` (the timed search machine of C13 with a faithful status
-script returns the least feasible k; no decomposition with weights >= 1 has fewer walks).
+script returns the least feasible k; no decomposition with weights >= 1 has fewer walks),
+`search_range_adequate` / `search_range_adequate_float` / `mfdc_search_complete_plain` (the range k <= |E| contains the minimum
+for plain integer instances and for float instances without subset constraints), `search_range_counterexample` /
+`search_range_not_adequate` (with subset constraints it does not: 5 edges, 6 constraints, minimum 6 walks, solve() -> False).
 Tie: K2 LP-dump equality of kFlowDecompCycles (`enc/kfdc.py`); K3 fault-injected traces of the real MinFlowDecompCycles
 loop against the timed Lean machine (machinery of props/c13.py); K1 `kfdc.witness`: for brute-force optimal decompositions
 the Lean side builds the assignment of `kfdc_complete` and checks every row and column of `kfdcLP`.
@@ -31,6 +34,12 @@ THEOREMS = ["FP.Props.C04.kfdc_exact", "FP.Props.C04.kfdc_given_weights", "FP.Pr
             "FP.Props.C04.scale_law_cap_violated", "FP.Props.C04.mfdc_search_minimal",
             "FP.Props.C04.mfdc_search_finds", "FP.Props.C04.mfdc_min_walks", "FP.Props.C04.mfdc_minimum_int",
             "FP.Props.C04.nonScc_once", "FP.Props.C04.caps_are_flows", "FP.Props.C04.within_of_int",
+            "FP.Props.C04.search_range_counterexample", "FP.Props.C04.search_range_not_adequate",
+            "FP.Props.C04.search_range_counterexample_unsolved", "FP.Props.C04.few_walks_suffice",
+            "FP.Props.C04.walks_at_most_edges",
+            "FP.Props.C04.search_range_adequate", "FP.Props.C04.search_range_adequate_of_bound",
+            "FP.Props.C04.mfdc_search_complete_plain", "FP.Props.C04.caratheodory",
+            "FP.Props.C04.search_range_adequate_float", "FP.Props.C04.mfdc_search_complete_float",
             "FP.Props.C13.timed_sound", "FP.Props.C13.timed_complete", "FP.Props.C01.walkcore_sound",
             "FP.Props.C12.intProd_complete"]
 IMPORTS = ["FP.Props.C04", "FP.Props.C13", "FP.Props.C01", "FP.Props.C12"]
@@ -43,11 +52,25 @@ RULE = ("K2: random kFlowDecompCycles configurations of enc/kfdc.py (non-trivial
         "1 or 1/2); scale factors 1/2, 2, 3, 1/4 with float weights. A case = (instance, option setting | factor). Non-trivial: the "
         "brute-force minimum is at least 2 or some optimal walk runs through an edge more than once. K3: every single "
         "solver-invocation position of the real search forced to each inconclusive status, and the clock made late at every "
-        "position.")
+        "position. T6: the fixed instance of search_range_counterexample (real solve(), real k-models k = 1..6, Lean witness "
+        "assignment for k = 6).")
 MODEL_SCOPE = ("modelled and proven: the kFlowDecompCycles LP (walk core with the three safety options off, caps, product blocks, "
                "10d rows, given weights), the timed k-loop of MinFlowDecompCycles.solve; not modelled (covered by the K5 oracles only): "
                "stDiGraph.get_width and the min-gen-set lower bound, the safety optimisations (C05/C06), the guessed-weights shortcut, "
-               "node-weighted mode (C11)")
+               "node-weighted mode (C11). "
+               "The search range `for k in range(lower bound, |E(G)| + 1)` (T6): what it guarantees is search_range_adequate_of_bound - "
+               "if SOME k-model with j <= |E| layers is satisfiable (lower bound valid, solver conclusive and in time on lo..j) the loop "
+               "returns the least satisfiable k. That such a j exists whenever any k-model is satisfiable is PROVEN for (a) plain integer "
+               "instances - weight_type=int, edge mode (no additional starts/ends), nothing ignored, every edge with the flow attribute, no "
+               "subset constraints (search_range_adequate, via few_walks_suffice: any family of walks with positive integer weights can be "
+               "replaced by at most |E| walks with the same weighted traversal counts) - and (b) float weights without subset constraints, "
+               "every edge with the attribute, some non-ignored flow value >= 1, ignored edges and additional starts/ends allowed "
+               "(search_range_adequate_float, Caratheodory on the decoded walks; caps unchanged because the same walks are kept). It is "
+               "REFUTED for inputs with subset constraints (search_range_counterexample / search_range_not_adequate: 5 edges, 6 constraints, "
+               "minimum 6 walks; solve() returns False - listed finding C04-search-range-subset-constraints, replayed on the real code by "
+               "range_witness_case). OPEN (neither proven nor refuted): integer weights with ignored edges / additional starts and ends / "
+               "edges without the attribute; float weights when all non-ignored flow values are below 1 (the K5 brute-force oracle covers "
+               "these on small inputs only)")
 TRUSTED = ["HiGHS reports kOptimal only with an assignment satisfying the LP within its tolerance and kInfeasible only for "
            "unsatisfiable LPs (the `Faithful` hypothesis of mfdc_search_minimal), re-checked end to end by the brute-force oracle",
            "the brute-force oracle enumerates all walks by their edge-multiplicity vectors m <= f (complete for weights >= 1 by "
@@ -392,7 +415,10 @@ def judge_int(ctx, suite, inst, label, opts, best):
         ctx.violation(f"MinFlowDecompCycles [{label}] returned {res['n']} walks, the minimum is {best[0]}"
                       + (" (a walk of weight 0 is among the returned ones)" if zero else ""), case,
                       site="MinFlowDecompCycles.zero_weight_walk" if zero and res["n"] < best[0] else site)
-    elif any(w == 0 for w in res["weights"]):
+    elif any(w == 0 for w in res["weights"]) and not inst.get("constraints"):
+        # (with subset constraints a walk of weight 0 can be what covers a constraint: s->a 3, a->a 1, a->t 1, a->u 2 with the
+        # constraints {a->u, a->a}, {s->a, a->u} has minimum 3 and [1, 0, 2] is one of its minimum solutions - this line used to
+        # flag it, a false alarm of the thorough tier found after the instance stream shifted)
         ctx.violation(f"MinFlowDecompCycles [{label}] returned a walk of weight 0 in a minimum decomposition", case,
                       site="MinFlowDecompCycles.zero_weight_walk")
     return res
@@ -569,6 +595,50 @@ def k3_traces(ctx, rng, n):
                   lambda m: ctx.model_hi("MinFlowDecompCycles", m), c13.gdesc(G), pairs=False, timed=True)
 
 
+RANGE_WITNESS = {"nodes": ["s0", "m", "s1", "t0", "t1", "t2"],
+                 "edges": [["s0", "m"], ["m", "t0"], ["m", "t1"], ["m", "t2"], ["s1", "m"]],
+                 "flow": [["s0", "m", "3"], ["m", "t0", "2"], ["m", "t1", "2"], ["m", "t2", "2"], ["s1", "m", "3"]],
+                 "constraints": [[["s%d" % a, "m"], ["m", "t%d" % b]] for a in range(2) for b in range(3)],
+                 "coverage": "1", "tags": ["range_witness", "several_sources", "several_sinks"]}
+
+
+def range_witness_case(ctx):
+    """T6 (FP.Props.C04.search_range_counterexample): two sources, a hub, three sinks, the six subset constraints
+    {(s_a,m),(m,t_b)}. Oracle: brute-force minimum (6 > |E| = 5). Real code: solve() (judged by the oracle), and the real
+    k-models k = 1..6 against the theorem (unsatisfiable for k <= 5, satisfiable for k = 6). Lean model: the assignment built
+    from the six paths satisfies kfdcLP for k = 6."""
+    fp = ctx.fp
+    inst = json.loads(json.dumps(RANGE_WITNESS))
+    best = oracle(inst)
+    ctx.rep.cov["oracle_evaluations"] += 1
+    judge_int(ctx, "K5.search_range", inst, "default", {}, best)
+    G = build_graph(inst)
+    cons = [[tuple(e) for e in c] for c in inst["constraints"]]
+    got = {}
+    for k in range(1, 7):
+        m = fp.kFlowDecompCycles(G, flow_attr="flow", k=k, weight_type=int, subset_constraints=cons,
+                                 solver_options={"time_limit": 120})
+        m.solve()
+        got[k] = (bool(m.is_solved()), str(m.solver.get_model_status()))
+        ctx.rep.cov["traces_validated_against_impl"] += 1
+    want = {k: k == 6 for k in range(1, 7)}
+    ok = all(got[k][0] == want[k] and (want[k] or got[k][1] == "kInfeasible") for k in want)
+    ctx.rep.count("K1.range_witness", [inst, "k-models"], nontrivial=True,
+                  hist=["k<=5 infeasible, k=6 optimal" if ok else "differs"])
+    if not ok:
+        ctx.disagree("K1.range_witness", inst, got, {k: ("optimal" if v else "infeasible") for k, v in want.items()},
+                     note="search_range_counterexample: the k-model is satisfiable for k = 6 and for no k <= 5")
+    walks = [["s%d" % a, "m", "t%d" % b] for a in range(2) for b in range(3)]
+    req = {"op": "kfdc.witness", "nodes": inst["nodes"], "edges": inst["edges"], "flow": inst["flow"], "ignore": [],
+           "starts": [], "ends": [], "weight_type": "int", "k": 6, "constraints": inst["constraints"], "coverage": "1",
+           "allow_empty": False, "scaling": [], "walks": walks, "weights": ["1"] * 6}
+    ans = ctx.driver.call(req)
+    ctx.rep.count("K1.range_witness", [inst, "witness"], nontrivial=True, hist=["sat" if ans["sat"] else "unsat"])
+    if not ans["sat"]:
+        ctx.disagree("K1.range_witness", dict(inst, walks=walks), "six paths of weight 1", ans,
+                     note="the assignment of the six paths violates the model's LP for k = 6")
+
+
 def finding_case(ctx, inp):
     """replay of a listed finding from its stored minimal input"""
     inst = {k: inp[k] for k in ("nodes", "edges", "flow") if k in inp}
@@ -585,6 +655,7 @@ def run(ctx):
     rng = ctx.rng
     k2.run_k2(ctx, K2_ADAPTERS, ctx.n(200, 2500))
     k3_traces(ctx, rng, ctx.n(6, 30))
+    range_witness_case(ctx)
     # the README graph and the self-loop first (fixed regression inputs), then random ones
     for shp, fl in [(FIXED_SHAPES[1], [1, 2, 2, 1]), (FIXED_SHAPES[0], [1, 1, 1]), (FIXED_SHAPES[0], [1, 3, 1])]:
         nodes, edges = shp
